@@ -982,8 +982,12 @@ def forcing_steps(
     for t in all_frames:
         steps.append(timer.time2step(t))
 
-    # The time interpolation needs at most one forcing time per model step
-    if len(set(steps)) < len(steps):
+    # The time interpolation needs at most one forcing time per model step,
+    # from the last time before the start to the first at or after the end
+    first = max([s for s in steps if s < 0], default=0)
+    last = min([s for s in steps if s >= timer.Nsteps], default=max(steps))
+    used = [s for s in steps if first <= s <= last]
+    if len(set(used)) < len(used):
         logger.critical("Several forcing times within one time step")
         raise SystemExit(3)
 
